@@ -29,6 +29,9 @@ const (
 )
 
 func (t ptype) String() string {
+	if isS(t) {
+		return sOf(t).name
+	}
 	if isV(t) {
 		return vOf(t).name
 	}
@@ -102,6 +105,9 @@ func lookupMethod(name string) *mspec {
 		if methodTable[i].name == name {
 			return &methodTable[i]
 		}
+	}
+	if m := lookupSMethod(name); m != nil {
+		return m // the methods with narrow, floating-point and named scalar parameters (scalar_types.go)
 	}
 	return lookupVMethod(name) // the methods with struct-typed, validated parameters (valid_types.go)
 }
@@ -311,6 +317,12 @@ func cancelledErr(m string) *jsonrpc.Error {
 
 func register(s *jsonrpc.Server, r *recorder) error {
 	if err := registerValid(s, r); err != nil {
+		return err
+	}
+	if err := sConstCheck(); err != nil {
+		return err
+	}
+	if err := registerScalar(s, r); err != nil {
 		return err
 	}
 	return s.RegisterMethods(
